@@ -3,6 +3,8 @@ CONSTANTS
   MaxMods = 3
   MaxDecls = 2
   ImportPositions = FALSE
+  ImportTwice = FALSE
+  Restricted = FALSE
   Dirs <- FlatDirs
 INVARIANTS VisibleOK NoLeak EmitCase
 CHECK_DEADLOCK FALSE
